@@ -20,11 +20,13 @@ struct GenCfg
   bool is_dbd() const { return cat == 1; }
 };
 
-struct DbdEntry { std::string nuc; int level; int mode; i64 init_draws; i64 init_us; double q_keV; double e0_keV; };
+struct DbdEntry { std::string nuc; int level; int mode; i64 init_draws; i64 init_us; double q_keV; double e0_keV; i64 qng_calls = 0; i64 qng_fails = 0; };
 
 const std::vector<std::string> & bkg_names();
 const std::vector<DbdEntry> & dbd_catalogue();       // accepted (isotope, level, mode) triples (committed data file)
-const std::vector<DbdEntry> & dbd_cheap();           // subset with small initialisation cost
+const std::vector<DbdEntry> & dbd_cheap();           // subset without quadrature at initialise (microseconds)
+const std::vector<DbdEntry> & dbd_quad();            // subset with 1..1500 quadratures at initialise (milliseconds)
+const std::vector<DbdEntry> & dbd_quad_missing();    // ... of which some really miss the QNG tolerance
 bool mode_supports_window(int mode);
 
 /// apply a configuration through the public setters (not initialised)
